@@ -1181,6 +1181,12 @@ class FileBuilder:
             self._dirs_to_make(os.path.dirname(filename), created_files)
         except OSError:
             return False
+        if (operation.raised and
+                self._simple_operation_executor.exists(
+                    filename, created_files)):
+            # Rerunning the operation would move the file aside or raise an
+            # IsADirectoryError, unlike in the previous build
+            return False
 
         created_files.started_building_file(filename)
 
